@@ -62,9 +62,15 @@ META = {
                  'the ops dict, instantiation Model/SelX.lean): __init__, clone (C03_translated_Select_clone_fresh: deriving never writes a cell '
                  'that existed before), the derivers, filter (= AND of the clauses, C03_translated_Select_filter_eq_model / _filter_sound), '
                  'tablesUsedSet / components / tablesUsedImmediate (C03_translated_tablesUsed_eq_model; list operands are not descended into) and '
-                 '_str_or_sqlrepr are proved for all inputs; Select.__sqlrepr__ is translated in full but proved statement by statement only '
-                 '(DISTINCT, items, FROM, WHERE, FOR UPDATE) - the loops collecting the table set, GROUP BY / HAVING / ORDER BY and the '
-                 'LIMIT hand-off (dbConnectionForScheme(db)._queryAddLimitOffset = parameter) are tied by the re-use and clause-plumbing streams; '
+                 '_str_or_sqlrepr are proved for all inputs; Select.__sqlrepr__ (25 statements, 4 loops) is composed into '
+                 'C03_translated_Select_sqlrepr_eq_model for Selects without joins / GROUP BY / HAVING / ORDER BY / DISTINCT ON and with all '
+                 'columns (SELECT [DISTINCT] items [FROM sorted tables] [WHERE clause], LIMIT hand-off to '
+                 'dbConnectionForScheme(db)._queryAddLimitOffset = parameter, FOR UPDATE), C03_translated_Select_sqlrepr_nodes on the model '
+                 '(texts = renderS, tables = tablesS) and C03_translated_INSubquery_sqlrepr_eq_model (IN (subselect)); the join / GROUP BY / '
+                 'HAVING / ORDER BY / lazyColumns branches are translated but outside the proved domain (ORDER BY: C11); the token grammar '
+                 'of the hand model has no subselect production: a subselect is covered at text level + C03_parse_render_translated_where, and '
+                 'by the oracle-only subquery stream; two-table stream: clauses naming another class\'s id / column on a plain class and on the '
+                 'inheritance child (join evaluated in Python); '
                  'hand-written: argument binding with defaults (bindParams), hasattr / method resolution along the class chain, sorted() order',
                  'Python reflected-operator dispatch (int <op> expr) and IntCol.from_python on ints (identity)',
                  'integer arithmetic is unbounded in the model; cases whose intermediate values leave int64 are skipped'],
@@ -871,6 +877,12 @@ def run_reuse(tA, tC, flip=0):
         got = run_sql(base)
         if got != ids_a:
             fails.append(('select-base', 'Select(where=expr) returns ids %s, the tree selects %s; SQL: %s' % (got, ids_a, sql0)))
+        # `where` is the alias used only when no `clause` is given: with both, the clause is the condition
+        both = sb.Select([q.id], where=A, clause=C)
+        got = run_sql(both)
+        if got != ids_c:
+            fails.append(('select-where-and-clause', 'Select(where=A, clause=C) returns ids %s, C selects %s; SQL: %s'
+                          % (got, ids_c, sqlrepr(both, 'sqlite'))))
         narrow = base.filter(C)
         other = base.newClause(C)
         same = [base.orderBy(q.id), base.newItems([q.id, q.a]), base.distinct(), base.unlimited(), base.lazyColumns(True),
@@ -984,6 +996,89 @@ def run_plumbing(tA, C, flip=0):
         fails.append(('plumbing-error', 'raised %s: %s (%s)' % (type(ex).__name__, ex, label)))
     return fails
 
+
+
+# --------------------------------------------------------------------------- two-table clauses (a second class's columns)
+OTHER_ROWS = [(1, 0), (2, None), (3, 2), (4, -1), (5, 1)]
+_other = {}
+
+
+def other_cls():
+    """a second, plain class on the connection of the 'dbname' / 'inherit' configurations: id 1..5, one IntCol `v`"""
+    if not _other:
+        from sqlobject import SQLObject, IntCol
+        conn2 = env()['cfgs'][CONFIGS.index('inherit')]['conn']
+        cls = type(sqlo.uniq('C03Oth'), (SQLObject,), {'_connection': conn2, 'v': IntCol(default=None)})
+        cls.createTable()
+        for oid, v in OTHER_ROWS:
+            o = cls(v=v)
+            assert o.id == oid
+        conn2.cache.clear()
+        _other['cls'] = cls
+    return _other['cls']
+
+
+JOIN_ATOMS = ['b==oid', 'oid==b', 'a<oid', 'oid-in', 'oid!=b-not', 'v==k', 'v-isnull', 'oid==a+v']
+
+
+def join_atom(kind, q, oq, sb):
+    """(expression, reference predicate over (child row, other row)) for one atom mentioning the OTHER class"""
+    if kind == 'b==oid':
+        return q.b == oq.id, lambda r, o: cmp_sem('eq', r[1], o[0])
+    if kind == 'oid==b':
+        return oq.id == q.b, lambda r, o: cmp_sem('eq', o[0], r[1])
+    if kind == 'a<oid':
+        return q.a < oq.id, lambda r, o: cmp_sem('lt', r[0], o[0])
+    if kind == 'oid-in':
+        return sb.IN(oq.id, [1, 3]), lambda r, o: o[0] in (1, 3)
+    if kind == 'oid!=b-not':
+        return sb.NOT(oq.id != q.b), lambda r, o: not3(cmp_sem('ne', o[0], r[1]))
+    if kind == 'v==k':
+        return oq.v == 2, lambda r, o: cmp_sem('eq', o[1], 2)
+    if kind == 'v-isnull':
+        return oq.v == None, lambda r, o: o[1] is None  # noqa: E711
+    if kind == 'oid==a+v':
+        return oq.id == q.a + oq.v, lambda r, o: cmp_sem('eq', o[0], ar_sem('add', r[0], o[1]))
+    raise ValueError(kind)
+
+
+def run_join(kinds, t, how=0):
+    """Cls.select(<atoms mentioning another class's id / column> AND <tree over the class's own columns>): the ids
+    returned must be those of the rows for which SOME row of the other table makes the conjunction true (three-valued).
+    Oracle = Python evaluation of the join; independent of the Lean model."""
+    from sqlobject import sqlbuilder as sb
+    e = env()
+    cls = e['cls']
+    oc = other_cls()
+    try:
+        own = [(rid, (a, b, f), ev(t, (a, b, f))) for rid, a, b, f in e['rows']]
+    except Overflow:
+        return None
+    atoms = [join_atom(k, cls.q, oc.q, sb) for k in kinds]
+    want = set()
+    for rid, r, tv in own:
+        for o in OTHER_ROWS:
+            if and3([pr(r, o) for _, pr in atoms] + [tv]) is True:
+                want.add(rid)
+                break
+    want = sorted(want)
+    try:
+        parts = [x for x, _ in atoms] + [build_real(t)]
+        if how == 0:
+            clause = sb.AND(*parts)
+        else:
+            clause = parts[0]
+            for x in parts[1:]:
+                clause = clause & x
+        sel = cls.select(clause)
+        sql = str(sel)
+        got = sorted(set(o.id for o in sel))
+    except Exception as ex:
+        return [('join-error', 'selecting with a clause over two classes raised %s: %s' % (type(ex).__name__, ex))]
+    if got != want:
+        return [('join-wrong-rows', 'select(%s AND tree) returned ids %s, the join evaluated in Python selects %s; SQL: %s'
+                 % (' AND '.join(kinds), got, want, sql))]
+    return []
 
 # --------------------------------------------------------------------------- generators
 def leaves_num():
@@ -1490,6 +1585,33 @@ def run(ctx):
                 ctx.oracle_fail(key, text, {'plumbing': True, 'tree': to_json(ta), 'cond': to_json(cc) if isinstance(cc, tuple) else None,
                                             'const': None if isinstance(cc, tuple) else repr(cc), 'ser': lab, 'cfg': CONFIGS[c]})
     # directed probe (note): a child-table column that occurs only inside an IN-list is invisible to tablesUsed
+    # two-table stream: a clause that also names the id / a column of ANOTHER class (join condition), selected on a plain
+    # class and on the inheritance child (whose select rewrites its OWN `q.id` to the parent's)
+    jdirected = [(['b==oid', 'v==k'], ('cmp', 'ge', ('c', 0), ('k', 0))), (['oid==b'], ('isnotnull', ('c', 0))),
+                 (['oid-in', 'a<oid'], ('cmp', 'ne', ('c', 1), ('k', 2))), (['oid==a+v'], ('cmp', 'le', ('c', 1), ('k', 2)))]
+    for i in range(ctx.budget(60, 1500)):
+        ks = [ctx.rng.choice(JOIN_ATOMS) for _ in range(ctx.rng.choice([1, 1, 2]))]
+        jdirected.append((ks, rnd_bool(ctx.rng, ctx.rng.choice([1, 2, 2]))))
+    for i, (ks, t) in enumerate(jdirected):
+        if has_sub(t) or refused(t) or has_float(t):
+            continue
+        for cname in ('dbname', 'inherit'):
+            if cname == 'inherit' and child_only_in_lists(t):
+                continue
+            set_cfg(CONFIGS.index(cname))
+            fails = run_join(ks, t, how=i % 2)
+            ctx.case('join ' + '+'.join(ks) + ' / ' + ser(t) + ' @' + cname, nontrivial=True, kind='join')
+            if fails is None:
+                ctx.count('skipped:int64-overflow')
+                continue
+            if fails:
+                kind, text = fails[0]
+                key = 'C03:%s@%s:%s' % (kind, cname, '+'.join(ks))
+                if key not in reported:
+                    reported.add(key)
+                    ctx.oracle_fail(key, text + ' [class configuration: %s]' % cname,
+                                    {'join': ks, 'tree': to_json(t), 'how': i % 2, 'ser': ser(t), 'cfg': cname})
+    set_cfg(0)
     set_cfg(CONFIGS.index('inherit'))
     w = ('in', ('k', 1), [('c', 1)])
     wres = run_impl(w)
@@ -1529,6 +1651,12 @@ def replay(case):
             text += '\n'.join('%s: %s' % f for f in fails)
         return not fails, text
     t = from_json(case['tree'])
+    if case.get('join'):
+        fails = run_join(case['join'], t, how=case.get('how', 0))
+        text = 'atoms: %s\ntree : %s\n' % (' AND '.join(case['join']), ser(t))
+        if fails:
+            text += '\n'.join('%s: %s' % f for f in fails)
+        return not fails, text
     if case.get('reuse'):
         tc = from_json(case['filter'])
         fails = run_reuse(t, tc)
